@@ -23,6 +23,7 @@ import contextlib
 import dataclasses
 import itertools
 import logging
+import os
 import pathlib
 import uuid
 import warnings
@@ -72,6 +73,11 @@ from .utils import (
 )
 
 logger = logging.getLogger("gtirb_rewriting")
+
+if os.environ.get("GTIRB_REWRITING_VERIF"):
+    from . import _verif
+else:
+    _verif = None
 
 
 class UnresolvableScopeError(ValueError):
@@ -653,6 +659,14 @@ class RewritingContext:
 
             if isinstance(modification, _InsertionOrReplacement):
                 context = InsertionContext(self._module, func, block, offset)
+                if _verif:
+                    _verif.emit(
+                        "before_patch",
+                        cache=modify_cache,
+                        block=actual_block,
+                        offset=actual_offset,
+                        modification=modification,
+                    )
                 if isinstance(modification.patch, Patch):
                     assembler_result = self._invoke_patch(
                         modification.patch,
@@ -684,6 +698,13 @@ class RewritingContext:
                 total_insert_len += (
                     insert_len - modification.scope._replacement_length()
                 )
+                if _verif:
+                    _verif.emit(
+                        "after_insert",
+                        cache=modify_cache,
+                        block=actual_block,
+                        modification=modification,
+                    )
             elif isinstance(modification, _Deletion):
                 actual_block = delete(
                     modify_cache,
@@ -693,6 +714,13 @@ class RewritingContext:
                     modification.retarget_to_proxy,
                 )
                 total_insert_len -= modification.scope._replacement_length()
+                if _verif:
+                    _verif.emit(
+                        "after_delete",
+                        cache=modify_cache,
+                        block=actual_block,
+                        modification=modification,
+                    )
 
     def _insert_function_stub(
         self,
@@ -793,6 +821,15 @@ class RewritingContext:
         )
         context = InsertionContext(self._module, func, block, 0)
 
+        if _verif:
+            _verif.emit(
+                "before_patch",
+                cache=modify_cache,
+                block=block,
+                offset=0,
+                modification=None,
+            )
+
         assembler_result = self._invoke_patch(
             patch,
             block,
@@ -812,6 +849,14 @@ class RewritingContext:
             context,
             assembler_result,
         )
+
+        if _verif:
+            _verif.emit(
+                "after_insert",
+                cache=modify_cache,
+                block=block,
+                modification=None,
+            )
 
     def _validate_offset_and_length(
         self, block: gtirb.ByteBlock, offset: int, length: int
@@ -1087,6 +1132,9 @@ class RewritingContext:
         with prepare_for_rewriting(
             self._module, self._abi.nop()
         ), make_modify_cache(self._module, self._functions) as modify_cache:
+            if _verif:
+                _verif.emit("apply_begin", cache=modify_cache, context=self)
+
             functions_by_uuid = {func.uuid: func for func in self._functions}
             sorted_blocks = sorted(
                 self._module.byte_blocks, key=lambda b: b.address or 0
@@ -1125,6 +1173,9 @@ class RewritingContext:
                         idx, offset
                     ),
                 )
+
+            if _verif:
+                _verif.emit("apply_end", cache=modify_cache, context=self)
 
         if self._symbol_retargets:
             retarget_symbol_uses(
